@@ -424,10 +424,16 @@ impl<'d> serde::ser::Serializer for Serializer<'d> {
 
     fn serialize_struct(
         self,
-        _name: &'static str,
+        name: &'static str,
         len: usize,
     ) -> Result<Self::SerializeStruct, Self::Error> {
-        self.serialize_map(Some(len))
+        // Pass the name on so that the private date-time struct is recognized (and rejected as a
+        // non-table root) instead of being written out as a table
+        let ser = toml_edit::ser::ValueSerializer::new()
+            .serialize_struct(name, len)
+            .map_err(Error::wrap)?;
+        let ser = SerializeDocumentTable::new(self, ser);
+        Ok(ser)
     }
 
     fn serialize_struct_variant(
